@@ -426,7 +426,7 @@ static bool literal_expressible(const std::string &lit, T v) {
 }
 
 struct Counters {
-  long cases = 0, checked = 0, excluded = 0, invalid = 0, traps = 0, nontrivial = 0, unexpressible = 0;
+  long cases = 0, checked = 0, excluded = 0, invalid = 0, traps = 0, nontrivial = 0, unexpressible = 0, same_object = 0;
   long by_route[5] = {0, 0, 0, 0, 0};
   std::map<std::string, long> cells;  // op|L|R -> checked
   std::vector<std::string> samples;
@@ -490,31 +490,55 @@ static std::string run_case(int route, int op, L l, R r, int li, int ri) {
   ++g_cnt.cells[std::string(OP_TEXT[op]) + "|" + TYPE_NAMES[li] + "|" + TYPE_NAMES[ri]];
   ++g_cnt.nontrivial;  // not excluded; operands are boundary values by construction (matrix) or random (rapidcheck part)
   if (g_cnt.samples.size() < 6 && (g_cnt.checked % 9973) == 1) g_cnt.samples.push_back(std::string(g_current ? g_current : text.c_str()));
-  std::ostringstream why;
-  if (e.v == TRAP) {
-    ++g_cnt.traps;
-    const bool ok = g.threw && (g.exc == "arithmetic_error" || (is_compound(op) && g.exc == "eval_error"));
-    if (!ok) {
-      why << "trapping operation must raise arithmetic_error" << (is_compound(op) ? " (or eval_error)" : "") << " but "
-          << (g.threw ? "raised " + g.exc + " " + g.text : "returned " + g.text);
+  // verdict on one evaluation of the expression (shared by the primary text and the same-object variant below)
+  auto judge = [&](const Got &g) -> std::string {
+    std::ostringstream why;
+    if (e.v == TRAP) {
+      const bool ok = g.threw && (g.exc == "arithmetic_error" || (is_compound(op) && g.exc == "eval_error"));
+      if (!ok) {
+        why << "trapping operation must raise arithmetic_error" << (is_compound(op) ? " (or eval_error)" : "") << " but "
+            << (g.threw ? "raised " + g.exc + " " + g.text : "returned " + g.text);
+        return why.str();
+      }
+      return "";
+    }
+    if (g.threw) {
+      why << "raised " << g.exc << " " << g.text << ", C++ yields " << e.text;
       return why.str();
     }
+    if (!g.known) { return "result is not arithmetic: " + g.text; }
+    if (g.is_bool != e.is_bool || g.is_float != e.is_float || g.size != e.size || (!e.is_bool && g.is_signed != e.is_signed)) {
+      why << "result type (size " << g.size << (g.is_float ? " float" : g.is_bool ? " bool" : g.is_signed ? " signed" : " unsigned") << ") differs from C++ (size " << e.size
+          << (e.is_float ? " float" : e.is_bool ? " bool" : e.is_signed ? " signed" : " unsigned") << "); value " << g.text << " vs " << e.text;
+      return why.str();
+    }
+    if (!same_value_sized(e, g)) {
+      why << "value " << g.text << " differs from C++ " << e.text;
+      return why.str();
+    }
+    return "";
+  };
+  std::ostringstream why;
+  {
+    const std::string verdict = judge(g);
+    if (!verdict.empty()) return verdict;
+  }
+  if (e.v == TRAP) {
+    ++g_cnt.traps;
     if (mutating && !same_value<L>(store<L>(field<L>(g_eng->A)), store<L>(l))) return "left operand modified although the operation raised";
     return "";
   }
-  if (g.threw) {
-    why << "raised " << g.exc << " " << g.text << ", C++ yields " << e.text;
-    return why.str();
-  }
-  if (!g.known) { return "result is not arithmetic: " + g.text; }
-  if (g.is_bool != e.is_bool || g.is_float != e.is_float || g.size != e.size || (!e.is_bool && g.is_signed != e.is_signed)) {
-    why << "result type (size " << g.size << (g.is_float ? " float" : g.is_bool ? " bool" : g.is_signed ? " signed" : " unsigned") << ") differs from C++ (size " << e.size
-        << (e.is_float ? " float" : e.is_bool ? " bool" : e.is_signed ? " signed" : " unsigned") << "); value " << g.text << " vs " << e.text;
-    return why.str();
-  }
-  if (!same_value_sized(e, g)) {
-    why << "value " << g.text << " differs from C++ " << e.text;
-    return why.str();
+  // the same *object* on both sides (x == x, x - x, x / x ...): C++ does not care, neither may the script (NaN == NaN is false even for one NaN)
+  if constexpr (std::is_same<L, R>::value) {
+    if (!unary && !mutating && (route == 1 || route == 4) && std::memcmp(store<L>(l).b, store<R>(r).b, sizeof(L)) == 0) {
+      const std::string t2 = route == 1 ? an + " " + OP_TEXT[op] + " " + an : std::string("`") + OP_TEXT[op] + "`(" + an + ", " + an + ")";
+      if (g_current) std::snprintf(g_current, 480, "%d %d %s %s %s %s :: %s  [same object; l=r=%s]", route, op, TYPE_NAMES[li], TYPE_NAMES[ri],
+                                   hex(store<L>(l)).c_str(), hex(store<R>(r)).c_str(), t2.c_str(), show(l).c_str());
+      const Got g2 = run_script(t2, true);
+      ++g_cnt.same_object;
+      const std::string verdict = judge(g2);
+      if (!verdict.empty()) return "with the same object on both sides (" + t2 + "): " + verdict;
+    }
   }
   if (mutating) {
     if (!same_value<L>(store<L>(field<L>(g_eng->A)), e.lhs_after)) {
@@ -615,7 +639,7 @@ static int worker(int idx, int nworkers, bool thorough, unsigned seed, const std
   if (!ok && !rc_fail.empty()) { out << "FAIL " << rc_fail << "\n"; }
   out << "STATS cases=" << g_cnt.cases << " checked=" << g_cnt.checked << " excluded=" << g_cnt.excluded << " invalid=" << g_cnt.invalid << " traps=" << g_cnt.traps
       << " unexpressible=" << g_cnt.unexpressible << " r1=" << g_cnt.by_route[1] << " r2=" << g_cnt.by_route[2] << " r3=" << g_cnt.by_route[3] << " r4=" << g_cnt.by_route[4]
-      << " cells=" << g_cnt.cells.size() << " rc_cases=" << rc_cases << "\n";
+      << " same_object=" << g_cnt.same_object << " cells=" << g_cnt.cells.size() << " rc_cases=" << rc_cases << "\n";
   for (const auto &s : g_cnt.samples) out << "SAMPLE " << s << "\n";
   out << "DONE\n";
   out.close();
